@@ -3,7 +3,7 @@ from check import Case, exec_cases
 from gen import common as G
 
 
-def run_simple(ctx, cases, prop, chk_filter=None, signature=None, relation=None, stateful_chk=False, verdict_filter=None):
+def run_simple(ctx, cases, prop, chk_filter=None, signature=None, relation=None, stateful_chk=False, verdict_filter=None, chk_variant=None):
     """chk_filter(op) -> bool: which ops get a `chk <op> | <impl obs>` line.
     signature(case, op_index, verdict, agrees) -> str."""
     impl, model = ctx.both(cases)
@@ -12,7 +12,7 @@ def run_simple(ctx, cases, prop, chk_filter=None, signature=None, relation=None,
     if chk_filter is not None:
         chk_cases = []
         for ci, c in enumerate(cases):
-            chk_cases.append(Case([("chk %s | %s" % (op, impl[ci][oi])) if (stateful_chk or chk_filter(op)) else "# skip"
+            chk_cases.append(Case([("chk %s | %s" % (chk_variant(op) if chk_variant else op, impl[ci][oi])) if (stateful_chk or chk_filter(op)) else "# skip"
                                    for oi, op in enumerate(c.ops)]))
         verdicts = exec_cases(ctx.driver, chk_cases, shards=shards)
     dist = G.Counter()
